@@ -274,7 +274,13 @@ func (p *Parser) loadPackagesWithConfig(baseCfg *packages.Config, patterns ...st
 		p.goPkgs[pkg.PkgPath] = pkg
 
 		for _, f := range pkg.Syntax {
+			trailing := trailingCommentGroups(p.fset, f)
 			for _, c := range f.Comments {
+				if trailing[c] {
+					// Not a candidate for the comment block above a
+					// declaration.
+					continue
+				}
 				// We need to do this on _every_ pkg, not just user-requested
 				// ones, because some generators look at tags in other
 				// packages.
@@ -298,6 +304,51 @@ func (p *Parser) loadPackagesWithConfig(baseCfg *packages.Config, patterns ...st
 	}
 
 	return append(existingPkgs, pkgs...), nil
+}
+
+// trailingCommentGroups returns the comment groups of f which start on a line
+// after some code ("x int // like this").  Such a comment documents what
+// precedes it; it is never the doc comment of the next declaration.
+func trailingCommentGroups(fset *token.FileSet, f *ast.File) map[*ast.CommentGroup]bool {
+	// The last position of any code on each line.
+	codeEnd := map[int]token.Pos{}
+	mark := func(pos token.Pos) {
+		if !pos.IsValid() {
+			return
+		}
+		if line := fset.Position(pos).Line; pos > codeEnd[line] {
+			codeEnd[line] = pos
+		}
+	}
+	ast.Inspect(f, func(n ast.Node) bool {
+		switch x := n.(type) {
+		case nil:
+			return false
+		case *ast.Comment, *ast.CommentGroup:
+			return false
+		case *ast.File:
+			mark(x.Package)
+			return true
+		case *ast.GenDecl:
+			mark(x.Lparen)
+		case *ast.FieldList:
+			mark(x.Opening)
+		case *ast.BlockStmt:
+			mark(x.Lbrace)
+		case *ast.CompositeLit:
+			mark(x.Lbrace)
+		}
+		mark(n.Pos())
+		mark(n.End() - 1)
+		return true
+	})
+	trailing := map[*ast.CommentGroup]bool{}
+	for _, c := range f.Comments {
+		if end, ok := codeEnd[fset.Position(c.Pos()).Line]; ok && end < c.Pos() {
+			trailing[c] = true
+		}
+	}
+	return trailing
 }
 
 // alreadyLoaded figures out which of the specified patterns have already been loaded
